@@ -5,7 +5,7 @@
    amplitude <b|psi>, or the dense element <b|O|b'> of an MPO with b_q := out_q*d + in_q.
    The model functions are those of Model/MPSAlg.v, tied to /repo by tools/props/c11.py. *)
 From Coq Require Import List Ring ZArith Bool.
-From EV Require Import Model.TransferMat Model.MPSAlg Model.Zip Proofs.TransferMat Proofs.MPSAlg Proofs.MPSInner Proofs.ZipProofs Model.Bath Proofs.ExpectProofs Proofs.FromAmpsProofs.
+From EV Require Import Model.TransferMat Model.MPSAlg Model.Zip Proofs.TransferMat Proofs.MPSAlg Proofs.MPSInner Proofs.ZipProofs Model.Bath Proofs.ExpectProofs Proofs.FromAmpsProofs Proofs.ApplyExpect.
 Import ListNotations.
 
 (* add_factors (direct sum [A|B], diag(A,B), ..., [A;B]) represents the sum: for every number of
@@ -147,3 +147,29 @@ Theorem C11_from_amplitudes_spec_premises_satisfiable :
   | None => False
   end.
 Proof. exact from_amplitudes_example. Qed.
+
+(* <psi|O psi> computed two ways agree: MPS.inner(psi, MPO.apply_to(psi)) - the zip-up product with ANY factorising QR
+   oracle, then the transfer contraction of inner - equals MPO.expect(psi), the left bath swept over the chain; every
+   number of sites, all bond dimensions, every local dimension, every commutative ring with a ring involution.
+   (Composition of C11_zip_contract, C11_inner_spec and C11_expect_spec in right-amplitude form; no definedness
+   premise is needed beyond the three computations succeeding.) *)
+Theorem C11_inner_apply_is_expect : forall (K : Type) (Ko : RingOps K),
+  ring_theory (k0 Ko) (k1 Ko) (kadd Ko) (kmul Ko) (ksub Ko) (kopp Ko) (@eq K) ->
+  (forall a b, kconj Ko (kadd Ko a b) = kadd Ko (kconj Ko a) (kconj Ko b)) ->
+  (forall a b, kconj Ko (kmul Ko a b) = kmul Ko (kconj Ko a) (kconj Ko b)) ->
+  kconj Ko (k0 Ko) = k0 Ko -> kconj Ko (k1 Ko) = k1 Ko ->
+  forall (d : nat) (qr : QR K), QRok K Ko qr ->
+  forall (As Ws Fs : list (T3 K)) (x : K),
+  zip_right Ko d 1 qr Ws As = Some Fs ->
+  chain_ok (1, 1, 1) As Ws (1, 1, 1) ->
+  forall A0 W0, dr (last As A0) = 1 -> dr (last Ws W0) = 1 ->
+  inner Ko As Fs = Some x ->
+  x = lbath Ko d As Ws (ones3 Ko) 0 0 0.
+Proof. exact inner_apply_is_expect. Qed.
+
+Theorem C11_inner_apply_is_expect_premises_satisfiable :
+  match zip_right gi_ops 2 1 qr_left_identity ex_top ex_bot with
+  | Some Fs => inner gi_ops ex_bot Fs = Some (lbath gi_ops 2 ex_bot ex_top (ones3 gi_ops) 0 0 0)
+  | None => False
+  end /\ chain_ok (1, 1, 1) ex_bot ex_top (1, 1, 1).
+Proof. exact inner_apply_example. Qed.
